@@ -11,6 +11,7 @@ import (
 	"sort"
 	"strings"
 
+	"golang.org/x/tools/go/callgraph"
 	"golang.org/x/tools/go/packages"
 	"golang.org/x/tools/go/ssa"
 	"golang.org/x/tools/go/ssa/ssautil"
@@ -24,6 +25,7 @@ type Program struct {
 	All    map[string]*packages.Package // every package, dependencies included
 	SSA    *ssa.Program
 	GOARCH string
+	cg     *callgraph.Graph
 }
 
 // anchorPackages must be present in every load; a tree where one of them is
